@@ -1,9 +1,28 @@
-"""C10 -- overlap removal leaves a separated subset and distance queries agree."""
+"""C10 -- overlap removal leaves a separated subset and distance queries agree.
+
+Input streams (every random choice from random.Random(ctx.seed); see DESIGN.md 5.10 for the dimension table):
+  exh      exhaustive small lattice with tied radii, with / without a fully periodic grid
+  rand     random emulsions: every grid kind (none / Cartesian with every periodicity mask, non-zero origin, unequal
+           extents and cell counts / cylindrical periodic and non-periodic in z / polar / spherical with and without an
+           inner radius), positions inside / on faces / on corners / outside the box / coincident, radius patterns,
+           min_distance incl. exactly an occurring surface distance and its float neighbours, +-inf, scaled by 2^k,
+           provenance of the emulsion, droplet class, numeric types of the arguments, call style
+  masks    for every dimension, periodicity mask, axis, origin kind and extent order: a pair straddling that axis
+           (overlapping exactly when the axis is periodic), and a pair straddling a corner
+  cyl      cylindrical grids (narrow finely sliced / flat wide / single cell), droplets on and off the axis
+  coin     two to five droplets at one position (defect F30), tied / distinct / zero radii
+  chain    chains of successive removals in which the removed index precedes the pairs that are examined later
+  long     long emulsions
+  raise    an operation that raises in the middle (grid of the wrong dimension) must leave the emulsion untouched
+  from_random   regions (bounds list / array / every grid kind), radius forms, num, flags, droplet class, rng
+"""
 from __future__ import annotations
 
+import copy as _copy
 import itertools
 import json
 import math
+import pickle
 import random
 
 import numpy as np
@@ -14,7 +33,8 @@ TRUSTED = [
     "Coq 8.16.1 kernel + vm_compute",
     "correspondence harness (harness/props/C10.py): exact float->Q conversion, survivors identified by object identity",
     "numpy argmin/delete/unravel_index semantics as modelled (first minimum in row-major order)",
-    "py-pde grid.distance (checked per sample against Model/Grid.v dist2 on coarse-dyadic inputs)",
+    "py-pde grid.distance (checked per sample against Model/Grid.v dist2 on dyadic inputs; cylindrical / polar / spherical "
+    "grids through Model/OverlapCases.v cyl_metric / sym_metric = py-pde 0.58.0 behaviour incl. the F19 quirk)",
     "scipy cKDTree.query and numpy RNG ranges (checked per sample by the oracle, not modelled)",
 ]
 ASSUME = [
@@ -22,58 +42,319 @@ ASSUME = [
     "positions and radii are finite",
 ]
 RULE = ("exhaustive: all emulsions of <=4 droplets on a 3-point half-integer lattice with radii in {0,1/2,1} in 1-d and "
-        "<=3 droplets in 2-d, min_distance in {-1,0,1/2,1}, with/without periodic grid; random: up to 12 droplets, d=1..3; "
-        "non-trivial = at least one pair closer than min_distance (something is removed or a tie is resolved); distinct by "
-        "(positions, radii, min_distance, grid)")
+        "<=3 droplets in 2-d, min_distance in {-1,0,1/2,1}, with/without periodic grid; structured: every periodicity mask x "
+        "straddled axis x origin kind x extent order (d=1..3), cylinders, coincident groups, removal chains, long emulsions; "
+        "random: up to 12 droplets, d=1..3, every grid kind; non-trivial = at least one pair closer than min_distance "
+        "(something is removed or a tie is resolved); distinct by the full input specification")
+
+# new inputs on which the UNCHANGED /repo fails the property (reported in the evidence notes, not judged); see the audit
+# report.  Entries: stream-independent predicates over a spec, by name.
+SUSPECTED: list[str] = [
+    # Emulsion.get_neighbor_distances raises TypeError for an emulsion that mixes droplet classes (it reads positions and radii
+    # through Emulsion.data, which refuses mixed classes), while the constructor, get_pairwise_distances, overlaps and
+    # remove_overlapping accept such an emulsion.  Mixed emulsions are generated (cls = "mixed"); everything except the
+    # nearest-neighbour part is judged on them.
+    "mixed_class_neighbor_distances",
+    # Emulsion.from_random(num, grid, ..., remove_overlapping=True) calls remove_overlapping() WITHOUT the grid it was given:
+    # on a grid with periodic axes droplets that overlap through the periodic boundary (overlaps(grid=grid) is True) are
+    # kept.  Outside the property text (which only speaks of region and radius range); counted per run, not judged.
+    "from_random_ignores_grid_metric",
+]
+
+PLAIN = {"prov": "nocopy", "cls": "spherical", "ctor": "array64", "md_type": "float", "call": "kw", "k": 0}
+PROVS = ["nocopy", "nocopy", "ctor_copy", "em_copy", "deepcopy", "pickle", "slice", "concat", "append", "shared", "queried",
+         "generator", "timecourse"]
+CLASSES = ["spherical", "spherical", "spherical", "diffuse", "perturbed", "mixed"]
+CTORS = ["array64", "array64", "list", "tuple", "f32", "int", "np0d"]
+MD_TYPES = ["float", "float", "int", "np64", "np32", "arr0d"]
+CALLS = ["kw", "pos", "default"]
+SCALES = [0, 0, 0, 0, 0, -50, -10, 10, 50]
 
 
-def _grid(dim, periodic, rng=None, L=None):
-    from pde import CartesianGrid
-    L = L or [3.0] * dim
-    return CartesianGrid([(0.0, l) for l in L], [max(2, int(l * 2)) for l in L], periodic=periodic)
+# --------------------------------------------------------------------------------------------------------------------
+# grids
+# --------------------------------------------------------------------------------------------------------------------
+def make_grid(gs, s=1.0):
+    """grid specification (JSON-serialisable, unscaled) -> py-pde grid scaled by s (a power of two)"""
+    if gs is None:
+        return None
+    from pde import CartesianGrid, CylindricalSymGrid, PolarSymGrid, SphericalSymGrid
+    kind = gs["kind"]
+    if kind == "cart":
+        return CartesianGrid([(lo * s, hi * s) for lo, hi in gs["bounds"]], list(gs["shape"]), periodic=list(gs["periodic"]))
+    if kind == "cyl":
+        z0, z1 = gs["bounds_z"]
+        return CylindricalSymGrid(gs["radius"] * s, (z0 * s, z1 * s), list(gs["shape"]), periodic_z=bool(gs["periodic_z"]))
+    rad = gs["radius"]
+    rad = (rad[0] * s, rad[1] * s) if isinstance(rad, (list, tuple)) else rad * s
+    if kind == "polar":
+        return PolarSymGrid(rad, gs["shape"])
+    if kind == "spherical":
+        return SphericalSymGrid(rad, gs["shape"])
+    raise ValueError(kind)
 
 
-def _run_ro(positions, radii, md, grid):
-    from droplets import SphericalDroplet, Emulsion
-    drops = [SphericalDroplet(np.array(p, float), r) for p, r in zip(positions, radii)]
-    em = Emulsion(drops, copy=False)
-    M = em.get_pairwise_distances(subtract_radius=True, grid=grid)
-    ids = {id(d): i for i, d in enumerate(drops)}
-    em.remove_overlapping(min_distance=md, grid=grid)
-    out = [ids[id(d)] for d in em]
-    return M, out, em, drops
+def cart_spec(bounds, shape, periodic):
+    return {"kind": "cart", "bounds": [list(map(float, b)) for b in bounds], "shape": [int(n) for n in shape],
+            "periodic": [bool(p) for p in periodic]}
 
 
-def _case_ro(radii, md, M, out):
-    rows = vlib.listlit([vlib.listlit(r, vlib.qlit) for r in M.tolist()])
-    return ("{| rc_md := %s; rc_rad := %s; rc_D := %s; rc_out := %s |}"
-            % (vlib.qlit(md), vlib.listlit(radii, vlib.qlit), rows, vlib.listlit(out, lambda i: f"{i}%nat")))
+def legacy_grid_spec(dim, per):
+    """the grids of the exhaustive stream / of old replay files: [0, 3]^dim, 6 cells per axis"""
+    if per in (None, "None"):
+        return None
+    mask = [True] * dim if per in (True, "True") else [i % 2 == 0 for i in range(dim)]
+    return cart_spec([(0.0, 3.0)] * dim, [6] * dim, mask)
 
 
-def _grid_lit(grid):
-    if grid is None:
+def grid_tag(gs):
+    if gs is None:
+        return "none"
+    if gs["kind"] == "cart":
+        return "cart:" + "".join("T" if p else "F" for p in gs["periodic"])
+    if gs["kind"] == "cyl":
+        return "cyl:z" + ("T" if gs["periodic_z"] else "F")
+    inner = isinstance(gs["radius"], (list, tuple)) and gs["radius"][0] > 0
+    return gs["kind"] + (":inner" if inner else "")
+
+
+def grid_lit(gs, s):
+    """the metric of the grid as a Model/Grid.v axis list"""
+    if gs is None:
         return "None"
-    axes = []
-    for (lo, hi), n, per in zip(grid.axes_bounds, grid.shape, grid.periodic):
-        axes.append("{| ncell := %s; alo := %s; ahi := %s; aper := %s |}"
-                    % (vlib.zlit(n), vlib.qlit(lo), vlib.qlit(hi), vlib.blit(per)))
-    return "(Some " + vlib.listlit(axes) + ")"
+    if gs["kind"] == "cart":
+        axes = ["{| ncell := %s; alo := %s; ahi := %s; aper := %s |}" % (vlib.zlit(n), vlib.qlit(lo * s), vlib.qlit(hi * s), vlib.blit(p))
+                for (lo, hi), n, p in zip(gs["bounds"], gs["shape"], gs["periodic"])]
+        return "(Some " + vlib.listlit(axes) + ")"
+    if gs["kind"] == "cyl":
+        z0, z1 = gs["bounds_z"]
+        return "(Some (cyl_metric %s %s %s %s %s %s))" % (vlib.zlit(gs["shape"][0]), vlib.zlit(gs["shape"][1]),
+                                                         vlib.qlit(gs["radius"] * s), vlib.qlit(z0 * s), vlib.qlit(z1 * s),
+                                                         vlib.blit(gs["periodic_z"]))
+    return "(Some (sym_metric %d%%nat))" % (2 if gs["kind"] == "polar" else 3)
 
 
-def oracle_one(positions, radii, md, grid):
-    """Property text over the implementation for one emulsion; returns failure description or None."""
-    from droplets import SphericalDroplet, Emulsion
-    drops = [SphericalDroplet(np.array(p, float), r) for p, r in zip(positions, radii)]
-    em = Emulsion(drops, copy=False)
-    n = len(drops)
+def grid_box(gs, dim):
+    """a bounding box [(lo, hi)] * dim used to place positions"""
+    if gs is None:
+        return [(0.0, 3.0)] * dim
+    if gs["kind"] == "cart":
+        return [tuple(b) for b in gs["bounds"]]
+    if gs["kind"] == "cyl":
+        r = gs["radius"]
+        return [(-r, r), (-r, r), tuple(gs["bounds_z"])]
+    r = gs["radius"]
+    r = r[1] if isinstance(r, (list, tuple)) else r
+    return [(-r, r)] * dim
+
+
+ORIGINS = ["zero", "centred", "positive", "negative"]
+EXTENTS = [1.5, 2.0, 3.0, 4.5, 6.0]
+CELLS = [1, 2, 3, 6, 8]
+
+
+def origin_of(kind, L):
+    return {"zero": 0.0, "centred": -L / 2, "positive": 5.25, "negative": -L - 1.5}[kind]
+
+
+def extent_order(L):
+    if len(L) < 2 or len(set(L)) == 1:
+        return "equal"
+    if L[0] == max(L) and L[-1] == min(L) and L[0] > L[-1]:
+        return "larger_first"
+    if L[-1] == max(L) and L[0] == min(L):
+        return "larger_last"
+    return "other"
+
+
+def periodic_place(mask):
+    """where the periodic axes sit (for the histogram)"""
+    idx = [i for i, p in enumerate(mask) if p]
+    if not idx:
+        return "none"
+    if len(idx) == len(mask):
+        return "all"
+    names = {0: "first", len(mask) - 1: "last"}
+    return "+".join(names.get(i, "middle") for i in idx)
+
+
+# --------------------------------------------------------------------------------------------------------------------
+# building the emulsion of a specification
+# --------------------------------------------------------------------------------------------------------------------
+def _f32_exact(x):
+    return math.isfinite(x) and float(np.float32(x)) == x
+
+
+def effective_variant(spec):
+    """resolve requested variants that are not applicable to the values of this case to their fallback"""
+    v = dict(PLAIN)
+    v.update(spec.get("var") or {})
+    s = math.ldexp(1.0, v["k"])
+    vals = [x * s for p in spec["positions"] for x in p] + [r * s for r in spec["radii"]]
+    if v["ctor"] == "f32" and not all(_f32_exact(x) for x in vals):
+        v["ctor"] = "array64"
+    if v["ctor"] == "int" and not all(float(x).is_integer() and abs(x) < 2 ** 53 for x in vals):
+        v["ctor"] = "array64"
+    md = spec["min_distance"] * s
+    if v["md_type"] == "int" and not (math.isfinite(md) and float(md).is_integer()):
+        v["md_type"] = "float"
+    if v["md_type"] == "np32" and not (_f32_exact(md) or math.isinf(md)):
+        v["md_type"] = "float"
+    if v["call"] == "default" and md != 0:
+        v["call"] = "kw"
+    if v["cls"] == "perturbed" and spec["dim"] == 1:
+        v["cls"] = "diffuse"
+    return v
+
+
+def _droplet(cls, dim, p, r, ctor, s):
+    from droplets import DiffuseDroplet, SphericalDroplet
+    from droplets.droplets import PerturbedDroplet2D, PerturbedDroplet3D
+    if ctor == "list":
+        pos = [float(x) for x in p]
+    elif ctor == "tuple":
+        pos = tuple(float(x) for x in p)
+    elif ctor == "f32":
+        pos, r = np.array(p, dtype=np.float32), np.float32(r)
+    elif ctor == "int":
+        pos, r = [int(x) for x in p], int(r)
+    elif ctor == "np0d":
+        pos, r = np.array(p, dtype=float), np.array(float(r))
+    else:
+        pos = np.array(p, dtype=float)
+    if cls == "spherical":
+        return SphericalDroplet(pos, r)
+    if cls == "diffuse":
+        return DiffuseDroplet(pos, r, 0.25 * s)
+    if dim == 2:
+        return PerturbedDroplet2D(pos, r, 0.25 * s, [0.125, 0.0625])
+    return PerturbedDroplet3D(pos, r, 0.25 * s, [0.125, 0.0, 0.0625])
+
+
+def build(spec, v):
+    """-> (emulsion, the caller's own list of droplets, a second emulsion sharing the droplets or None)"""
+    from droplets import Emulsion
+    s = math.ldexp(1.0, v["k"])
+    dim = spec["dim"]
+    classes = [v["cls"] if v["cls"] != "mixed" else ("spherical", "diffuse")[i % 2] for i in range(len(spec["radii"]))]
+    caller = [_droplet(c, dim, [x * s for x in p], r * s, v["ctor"], s) for c, p, r in zip(classes, spec["positions"], spec["radii"])]
+    prov, other = v["prov"], None
+    if prov == "ctor_copy":
+        em = Emulsion(caller)
+    elif prov == "em_copy":
+        em = Emulsion(caller, copy=False).copy()
+    elif prov == "deepcopy":
+        em = _copy.deepcopy(Emulsion(caller, copy=False))
+    elif prov == "pickle":
+        em = pickle.loads(pickle.dumps(Emulsion(caller, copy=False)))
+    elif prov == "slice":
+        em = Emulsion(caller, copy=False)[:]
+    elif prov == "concat":
+        k = len(caller) // 2
+        em = Emulsion(caller[:k], copy=False) + Emulsion(caller[k:], copy=False)
+    elif prov == "append":
+        em = Emulsion()
+        for d in caller:
+            em.append(d, copy=False)
+    elif prov == "generator":  # as the locators do
+        em = Emulsion((d for d in caller), copy=False)
+    elif prov == "timecourse":  # member of a time course
+        from droplets.emulsions import EmulsionTimeCourse
+        em = EmulsionTimeCourse([Emulsion(caller, copy=False)], times=[0.5])[0]
+    elif prov == "shared":
+        em, other = Emulsion(caller, copy=False), Emulsion(caller, copy=False)
+    elif prov == "queried":
+        em = Emulsion(caller, copy=False)
+        _ = em.get_pairwise_distances()
+        if v["cls"] != "mixed":
+            _ = em.get_neighbor_distances()
+        if len(em) and v["cls"] != "mixed":  # (the data array of an empty / a mixed emulsion is documented to raise)
+            _ = em.data
+        em.remove_small(-1.0 * s)
+        em.remove_overlapping(min_distance=-math.inf)
+    else:
+        em = Emulsion(caller, copy=False)
+    return em, caller, other
+
+
+def _state(objs):
+    return [(id(d), type(d).__name__, np.asarray(d.data).tobytes()) for d in objs]
+
+
+def _md_arg(md, md_type):
+    if md_type == "int":
+        return int(md)
+    if md_type == "np64":
+        return np.float64(md)
+    if md_type == "np32":
+        return np.float32(md)
+    if md_type == "arr0d":
+        return np.array(md)
+    return float(md)
+
+
+def _is_real_matrix(M, n):
+    return (isinstance(M, np.ndarray) and M.shape == (n, n) and M.dtype.kind == "f" and bool(np.isfinite(M).all()))
+
+
+# --------------------------------------------------------------------------------------------------------------------
+# property oracle (written from the property text; results of the wrong kind are failures, never crashes)
+# --------------------------------------------------------------------------------------------------------------------
+def run_spec(spec):
+    """-> (failure description or None, info for the correspondence / the histogram)"""
+    info: dict = {}
+    try:
+        return _oracle(spec, info), info
+    except Exception as e:  # an undocumented exception on a valid input is a property failure with that input
+        return f"exception {type(e).__name__}: {e}"[:300], info
+
+
+def _oracle(spec, info):
+    v = effective_variant(spec)
+    info["var"] = v
+    s = math.ldexp(1.0, v["k"])
+    grid = make_grid(spec["grid"], s)
+    grid_sig = None if grid is None else (repr(grid), tuple(grid.periodic), tuple(map(tuple, np.asarray(grid.axes_bounds, float))))
+    md = spec["min_distance"] * s
+    em, caller, other = build(spec, v)
+    caller_ids = [id(d) for d in caller]
+    caller_state = _state(caller)
+    if v["prov"] in ("nocopy", "append", "shared", "queried", "generator") and not (len(em) == len(caller) and all(a is b for a, b in zip(em, caller))):
+        return "an emulsion built without copying does not hold the given objects in the given order"
+    members = list(em)
+    n = len(members)
+    if n != len(spec["positions"]):
+        return f"emulsion built via {v['prov']} has {n} droplets instead of {len(spec['positions'])}"
+    P = [np.array(d.position, dtype=float) for d in members]
+    R = [float(d.radius) for d in members]
+    for p, r, p0, r0 in zip(P, R, spec["positions"], spec["radii"]):
+        if r != r0 * s or p.shape != (spec["dim"],) or any(a != b * s for a, b in zip(p, p0)):
+            return f"emulsion built via {v['prov']} / {v['ctor']} does not hold the given positions and radii"
+    before = _state(members)
+    ids = {id(d): i for i, d in enumerate(members)}
 
     def dist(a, b):
         if grid is None:
-            return float(np.linalg.norm(a.position - b.position))
-        return float(grid.distance(a.position, b.position, coords="cartesian"))
+            return float(np.linalg.norm(a - b))
+        return float(grid.distance(a, b, coords="cartesian"))
 
-    M0 = em.get_pairwise_distances(subtract_radius=False, grid=grid)
-    M1 = em.get_pairwise_distances(subtract_radius=True, grid=grid)
+    if v["call"] == "pos":
+        M0 = em.get_pairwise_distances(False, grid)
+        M1 = em.get_pairwise_distances(True, grid)
+    elif v["call"] == "default":
+        M0 = em.get_pairwise_distances() if grid is None else em.get_pairwise_distances(grid=grid)
+        M1 = em.get_pairwise_distances(subtract_radius=True) if grid is None else em.get_pairwise_distances(True, grid=grid)
+    else:
+        M0 = em.get_pairwise_distances(subtract_radius=False, grid=grid)
+        M1 = em.get_pairwise_distances(subtract_radius=True, grid=grid)
+    for name, M in (("distance", M0), ("surface distance", M1)):
+        if not _is_real_matrix(M, n):
+            return (f"{name} matrix is not a finite real {n}x{n} array: {type(M).__name__} "
+                    f"{getattr(M, 'shape', None)} {getattr(M, 'dtype', None)}")
+    info.update(M0=M0, M1=M1, R=R, P=P, md=md)
+    DD = [[dist(P[i], P[j]) if i != j else 0.0 for j in range(n)] for i in range(n)]
+    info["wrap"] = grid is not None and any(DD[i][j] != float(np.linalg.norm(P[i] - P[j])) for i in range(n) for j in range(i))
+    exact_edge = 0
     for i in range(n):
         if M0[i, i] != 0 or M1[i, i] != 0:
             return "non-zero diagonal"
@@ -81,50 +362,134 @@ def oracle_one(positions, radii, md, grid):
             if M0[i, j] != M0[j, i] or M1[i, j] != M1[j, i]:
                 return "distance matrix not symmetric"
             if i != j:
-                d = dist(drops[i], drops[j])
-                if M0[i, j] != d and not math.isclose(M0[i, j], dist(drops[j], drops[i]), rel_tol=0, abs_tol=0):
+                d = DD[i][j]
+                if M0[i, j] != d and M0[i, j] != DD[j][i]:
                     return f"matrix entry {M0[i, j]} is not the centre distance {d}"
-                if not math.isclose(M1[i, j], d - (radii[i] + radii[j]), rel_tol=1e-15, abs_tol=1e-15):
+                if not math.isclose(M1[i, j], d - (R[i] + R[j]), rel_tol=1e-15, abs_tol=1e-15 * s):
                     return "surface distance is not centre distance minus both radii"
-                ov = drops[i].overlaps(drops[j], grid=grid)
-                # knife edge (distance == r1 + r2 up to rounding) excluded
-                if abs(M1[i, j]) > 1e-12 and ov != (M1[i, j] < 0):
+                ov = members[i].overlaps(members[j], grid=grid) if (i + j) % 2 else members[i].overlaps(members[j], grid)
+                if not isinstance(ov, (bool, np.bool_)):
+                    return f"overlaps() returned {type(ov).__name__}"
+                # `d < r1 + r2` and `d - (r1 + r2) < 0` are the same predicate also in IEEE arithmetic, so the knife edge
+                # (touching droplets) is judged exactly whenever the matrix entry is the canonical expression of the
+                # distance overlaps() sees; otherwise (last-bit differences) the knife edge is excluded
+                if M1[i, j] == d - (R[i] + R[j]):
+                    exact_edge += M1[i, j] == 0
+                    if bool(ov) != bool(M1[i, j] < 0):
+                        return f"overlaps()={ov} but surface distance {M1[i, j]}"
+                elif abs(M1[i, j]) > 1e-12 * s and bool(ov) != bool(M1[i, j] < 0):
                     return f"overlaps()={ov} but surface distance {M1[i, j]}"
-    if grid is None and n >= 2:
-        nd = em.get_neighbor_distances(subtract_radius=False)
-        nds = em.get_neighbor_distances(subtract_radius=True)
+    info["touching_pairs"] = exact_edge // 2
+    # nearest neighbours: always the non-periodic metric (documented); compared with the matrix of that metric
+    E0 = M0 if grid is None else em.get_pairwise_distances(subtract_radius=False)
+    E1 = M1 if grid is None else em.get_pairwise_distances(subtract_radius=True)
+    try:
+        nd = em.get_neighbor_distances() if v["call"] == "default" else em.get_neighbor_distances(subtract_radius=False)
+        nds = em.get_neighbor_distances(True) if v["call"] == "pos" else em.get_neighbor_distances(subtract_radius=True)
+        judged = [("neighbour distances", nd), ("neighbour surface distances", nds)]
+    except TypeError:
+        if len({type(d) for d in members}) > 1 and "mixed_class_neighbor_distances" in SUSPECTED:
+            info["suspected"] = "mixed_class_neighbor_distances"  # reported, not judged
+            judged = []
+        else:
+            raise
+    for name, a in judged:
+        if not (isinstance(a, np.ndarray) and a.shape == (n,) and a.dtype.kind == "f"):
+            return f"{name} are not a real vector of length {n}: {type(a).__name__} {getattr(a, 'shape', None)} {getattr(a, 'dtype', None)}"
+        if n == 1 and math.isfinite(a[0]):
+            return f"{name} of a single droplet are finite ({a[0]})"
+        if n >= 2 and not np.isfinite(a).all():
+            return f"{name} are not finite"
+    if n >= 2 and judged:
+        if not _is_real_matrix(E0, n) or not _is_real_matrix(E1, n):
+            return "Euclidean distance matrix is not a finite real array"
         for i in range(n):
-            row = min(M0[i, j] for j in range(n) if j != i)
-            if not math.isclose(nd[i], row, rel_tol=1e-12, abs_tol=1e-12):
+            row = min(E0[i, j] for j in range(n) if j != i)
+            if not math.isclose(nd[i], row, rel_tol=1e-12, abs_tol=1e-12 * s):
                 return f"neighbour distance {nd[i]} is not the row minimum {row}"
             # surface variant: distance to a nearest neighbour (by centre distance) minus both radii
-            ok_vals = [M1[i, j] for j in range(n) if j != i and math.isclose(M0[i, j], row, rel_tol=1e-12, abs_tol=1e-12)]
-            if not any(math.isclose(nds[i], v, rel_tol=1e-12, abs_tol=1e-12) for v in ok_vals):
+            ok_vals = [E1[i, j] for j in range(n) if j != i and math.isclose(E0[i, j], row, rel_tol=1e-12, abs_tol=1e-12 * s)]
+            if not any(math.isclose(nds[i], x, rel_tol=1e-12, abs_tol=1e-12 * s) for x in ok_vals):
                 return (f"neighbour distance with subtracted radii {nds[i]} of droplet {i} is not the surface distance to a "
                         f"nearest neighbour {ok_vals}")
-    ids = {id(d): i for i, d in enumerate(drops)}
-    em.remove_overlapping(min_distance=md, grid=grid)
+    if list(map(id, em)) != list(map(id, members)) or _state(members) != before:
+        return "a distance query changed the emulsion or its droplets"
+    # ---- removal ----
+    md_arg = _md_arg(md, v["md_type"])
+
+    def remove():
+        if v["call"] == "pos":
+            return em.remove_overlapping(md_arg, grid)
+        if v["call"] == "default":
+            return em.remove_overlapping() if grid is None else em.remove_overlapping(grid=grid)
+        return em.remove_overlapping(min_distance=md_arg, grid=grid)
+
+    if remove() is not None:
+        return "remove_overlapping returned a value"
+    if not isinstance(em, list) or type(em).__name__ != "Emulsion":
+        return "emulsion changed its class"
     out = [ids.get(id(d), -1) for d in em]
+    info["out"] = out
     if -1 in out:
         return "survivor is not one of the original objects"
     if out != sorted(out) or len(set(out)) != len(out):
         return f"survivors not in original order: {out}"
     for a, b in itertools.combinations(out, 2):
-        if dist(drops[a], drops[b]) - (radii[a] + radii[b]) < md - 1e-12:
+        if DD[a][b] - (R[a] + R[b]) < md - 1e-12 * s:
             return f"survivors {a},{b} closer than min_distance"
     for k in range(n):
         if k not in out:
-            if not any(j != k and radii[j] >= radii[k] and M1[k, j] < md for j in range(n)):
+            if not any(j != k and R[j] >= R[k] and M1[k, j] < md for j in range(n)):
                 return f"droplet {k} removed although no droplet at least as large is closer than min_distance"
     if n:
-        mx = max(radii)
-        if radii.count(mx) == 1 and radii.index(mx) not in out:
+        mx = max(R)
+        if R.count(mx) == 1 and R.index(mx) not in out:
             return "strictly largest droplet removed"
-    before = list(em)
-    em.remove_overlapping(min_distance=md, grid=grid)
-    if [id(d) for d in em] != [id(d) for d in before]:
+    # the objects themselves (survivors and removed ones), the caller's list and a second collection are untouched
+    if _state(members) != before:
+        return "remove_overlapping changed a droplet"
+    if [id(d) for d in caller] != caller_ids or _state(caller) != caller_state:
+        return "remove_overlapping changed the caller's list of droplets"
+    if other is not None and ([id(d) for d in other] != caller_ids or _state(other) != caller_state):
+        return "removing from one emulsion changed another emulsion that shares the droplets"
+    if grid is not None and grid_sig != (repr(grid), tuple(grid.periodic), tuple(map(tuple, np.asarray(grid.axes_bounds, float)))):
+        return "the grid was changed"
+    kept = list(em)
+    if remove() is not None:
+        return "remove_overlapping returned a value"
+    if [id(d) for d in em] != [id(d) for d in kept]:
         return "second call removed something"
     return None
+
+
+def run_raising(spec):
+    """an operation that raises in the middle: a grid of the wrong dimension.  Whatever is raised, the emulsion and its
+    droplets must be what they were (remove_overlapping computes all distances before it removes anything)."""
+    info: dict = {}
+    try:
+        v = effective_variant(spec)
+        em, caller, _other = build(spec, v)
+        members, before = list(em), _state(list(em))
+        grid = make_grid(spec["wrong_grid"])
+        try:
+            em.remove_overlapping(min_distance=spec["min_distance"], grid=grid)
+            info["raised"] = "no exception"
+            return None, info  # accepted the grid: nothing to judge here
+        except Exception as e:
+            info["raised"] = type(e).__name__
+        if [id(d) for d in em] != [id(d) for d in members] or _state(members) != before:
+            return "remove_overlapping raised and left a partially modified emulsion", info
+        return None, info
+    except Exception as e:
+        return f"exception {type(e).__name__}: {e}"[:300], info
+
+
+# --------------------------------------------------------------------------------------------------------------------
+# generators
+# --------------------------------------------------------------------------------------------------------------------
+def mk(stream, positions, radii, md, dim, gs, var=None, **extra):
+    return {"stream": stream, "positions": [list(map(float, p)) for p in positions], "radii": list(map(float, radii)),
+            "min_distance": float(md), "dim": dim, "grid": gs, "var": dict(var or PLAIN), **extra}
 
 
 def gen_exhaustive(ctx):
@@ -139,21 +504,440 @@ def gen_exhaustive(ctx):
                 for rad in itertools.product(rs, repeat=n):
                     for md in mds:
                         for per in (None, True):
-                            out.append((list(pos), list(rad), md, dim, per))
+                            out.append(mk("exh", pos, rad, md, dim, legacy_grid_spec(dim, per)))
     return out
+
+
+def rand_variant(rng, plain_share=0.35):
+    if rng.random() < plain_share:
+        return dict(PLAIN)
+    return {"prov": rng.choice(PROVS), "cls": rng.choice(CLASSES), "ctor": rng.choice(CTORS), "md_type": rng.choice(MD_TYPES),
+            "call": rng.choice(CALLS), "k": rng.choice(SCALES)}
+
+
+def rand_grid(rng, dim):
+    kinds = ["none", "none", "cart", "cart", "cart", "cart"]
+    if dim == 2:
+        kinds += ["polar"]
+    if dim == 3:
+        kinds += ["cyl", "cyl", "spherical"]
+    kind = rng.choice(kinds)
+    if kind == "none":
+        return None
+    if kind == "cart":
+        L = [rng.choice(EXTENTS) for _ in range(dim)]
+        if rng.random() < 0.3:
+            L = sorted(L, reverse=rng.random() < 0.5)
+        bounds = []
+        for l in L:
+            o = origin_of(rng.choice(ORIGINS), l)
+            bounds.append((o, o + l))
+        return cart_spec(bounds, [rng.choice(CELLS) for _ in range(dim)], [rng.random() < 0.5 for _ in range(dim)])
+    if kind == "cyl":
+        lz = rng.choice([1.5, 3.0, 12.0])
+        z0 = origin_of(rng.choice(ORIGINS), lz)
+        return {"kind": "cyl", "radius": rng.choice([0.5, 2.0, 6.0]), "bounds_z": [z0, z0 + lz],
+                "shape": list(rng.choice([(2, 24), (8, 2), (4, 8), (1, 1), (3, 5)])), "periodic_z": rng.random() < 0.5}
+    rad = rng.choice([3.0, 1.5, [1.0, 3.0], [0.5, 4.5]])
+    return {"kind": kind, "radius": rad, "shape": rng.choice([1, 2, 4, 7])}
+
+
+def rand_positions(rng, gs, dim, n, hist):
+    box = grid_box(gs, dim)
+    on_axis = gs is not None and gs["kind"] == "cyl" and rng.random() < 0.75
+    pos = []
+    for _ in range(n):
+        mode = rng.choice(["inside"] * 5 + ["face", "corner", "outside", "dup", "dup"])
+        if mode == "dup" and not pos:
+            mode = "inside"
+        if mode == "dup":
+            p = list(rng.choice(pos))
+        else:
+            p = []
+            for lo, hi in box:
+                steps = int((hi - lo) * 64)
+                if mode == "inside":
+                    x = lo + rng.randrange(0, steps + 1) / 64.0
+                elif mode == "corner":
+                    x = rng.choice([lo, hi])
+                elif mode == "outside":
+                    x = rng.choice([lo - rng.randrange(1, steps + 1) / 64.0, hi + rng.randrange(1, steps + 1) / 64.0,
+                                    lo + rng.randrange(0, steps + 1) / 64.0])
+                else:
+                    x = lo + rng.randrange(0, steps + 1) / 64.0
+                p.append(x)
+            if mode == "face":
+                k = rng.randrange(dim)
+                p[k] = rng.choice(box[k])
+        if on_axis:
+            p[0] = p[1] = 0.0
+        hist.append(mode)
+        pos.append(p)
+    return pos
+
+
+def rand_radii(rng, n):
+    pat = rng.choice(["mixed", "mixed", "mixed", "all_equal", "all_zero", "two_values", "one_big"])
+    if pat == "all_equal":
+        r = rng.choice([0.25, 0.5, 1.0])
+        return pat, [r] * n
+    if pat == "all_zero":
+        return pat, [0.0] * n
+    if pat == "two_values":
+        return pat, [rng.choice([0.25, 0.75]) for _ in range(n)]
+    if pat == "one_big":
+        rad = [rng.choice([0.0, 0.25, 0.5]) for _ in range(n)]
+        if n:
+            rad[rng.randrange(n)] = 2.0
+        return pat, rad
+    return pat, [rng.choice([0.0, 0.25, 0.5, 0.5, 1.0, rng.randrange(1, 96) / 64.0]) for _ in range(n)]
+
+
+def surface_distance(spec, i, j):
+    """the surface distance of droplets i < j in the metric of the case, evaluated like the documented formula"""
+    grid = make_grid(spec["grid"])
+    a, b = np.array(spec["positions"][i], float), np.array(spec["positions"][j], float)
+    d = float(np.linalg.norm(a - b)) if grid is None else float(grid.distance(a, b, coords="cartesian"))
+    return d - (spec["radii"][i] + spec["radii"][j])
 
 
 def gen_random(ctx, rng, count):
     out = []
     for _ in range(count):
         dim = rng.choice([1, 2, 3])
-        n = rng.randrange(0, 13)
-        pos = [[rng.randrange(0, 3 * 64) / 64.0 for _ in range(dim)] for _ in range(n)]
-        rad = [rng.choice([0.0, 0.25, 0.5, 0.5, 1.0, rng.randrange(1, 96) / 64.0]) for _ in range(n)]
-        md = rng.choice([-1.0, -0.25, 0.0, 0.0, 0.5, 1.0])
-        per = rng.choice([None, True, "mixed"])
-        out.append((pos, rad, md, dim, per))
+        n = rng.choice([0, 1, 2, 2, 3, 3] + list(range(4, 13)))
+        gs = rand_grid(rng, dim)
+        modes: list = []
+        pos = rand_positions(rng, gs, dim, n, modes)
+        pat, rad = rand_radii(rng, n)
+        var = rand_variant(rng)
+        spec = mk("rand", pos, rad, 0.0, dim, gs, var, pos_modes=modes, radii_pattern=pat)
+        kind = rng.choice(["fixed"] * 5 + ["occurring", "occurring", "occurring_up", "occurring_down", "inf", "-inf"])
+        if kind.startswith("occurring") and n >= 2:
+            i, j = sorted(rng.sample(range(n), 2))
+            md = surface_distance(spec, i, j)
+            md = {"occurring": md, "occurring_up": math.nextafter(md, math.inf), "occurring_down": math.nextafter(md, -math.inf)}[kind]
+            if kind != "occurring" and var["k"] != 0:
+                var["k"] = 0  # the float neighbours are taken at scale 1
+        elif kind == "inf":
+            md = math.inf
+        elif kind == "-inf":
+            md = -math.inf
+        else:
+            kind = "fixed"
+            md = rng.choice([-1.0, -0.25, 0.0, 0.0, 0.5, 1.0])
+        spec["min_distance"], spec["md_kind"] = md, kind
+        out.append(spec)
     return out
+
+
+def gen_masks(ctx, rng):
+    """every dimension x periodicity mask x straddled axis x origin kind x extent order, plus a pair across the corner"""
+    out = []
+    for dim in (1, 2, 3):
+        for mask in itertools.product([False, True], repeat=dim):
+            for okind in ORIGINS:
+                for eo in ("equal", "larger_first", "larger_last"):
+                    if dim == 1 and eo != "equal":
+                        continue
+                    L = {"equal": [3.0] * dim, "larger_first": [6.0, 3.0, 1.5][:dim] if dim == 3 else [6.0, 1.5],
+                         "larger_last": [1.5, 3.0, 6.0][:dim] if dim == 3 else [1.5, 6.0]}[eo]
+                    bounds = [(origin_of(okind, l), origin_of(okind, l) + l) for l in L]
+                    shape = [rng.choice(CELLS) for _ in range(dim)]
+                    gs = cart_spec(bounds, shape, mask)
+                    mid = [(lo + hi) / 2 for lo, hi in bounds]
+                    for k in list(range(dim)) + ["corner"]:
+                        if k == "corner":
+                            if eo != "equal":
+                                continue
+                            a = [lo + 0.25 for lo, hi in bounds]
+                            b = [hi - 0.25 for lo, hi in bounds]
+                        else:
+                            a, b = list(mid), list(mid)
+                            a[k], b[k] = bounds[k][0] + 0.25, bounds[k][1] - 0.25
+                        drops = [(a, 0.5), (b, 0.375), (mid, 0.125)]
+                        rng.shuffle(drops)
+                        md = rng.choice([0.0, 0.0, -0.25, 0.25])
+                        out.append(mk("masks", [p for p, _ in drops], [r for _, r in drops], md, dim, gs,
+                                      straddle=str(k), origin=okind, extents=eo))
+    return out
+
+
+def gen_cyl(ctx, rng):
+    out = []
+    geoms = [(0.5, 12.0, (2, 24), "narrow_fine"), (6.0, 1.5, (8, 2), "flat_wide"), (2.0, 3.0, (4, 8), "regular"), (1.0, 3.0, (1, 1), "single_cell")]
+    for pz in (False, True):
+        for R, lz, shape, gname in geoms:
+            for okind in ORIGINS:
+                z0 = origin_of(okind, lz)
+                gs = {"kind": "cyl", "radius": R, "bounds_z": [z0, z0 + lz], "shape": list(shape), "periodic_z": pz}
+                zmid = z0 + lz / 2
+                # on the axis: across the z boundary, in the middle, a coincident pair
+                pos = [[0, 0, z0 + 0.25], [0, 0, z0 + lz - 0.25], [0, 0, zmid], [0, 0, zmid]]
+                rad = [0.5, 0.375, 0.25, 0.125]
+                order = list(range(4))
+                rng.shuffle(order)
+                out.append(mk("cyl", [pos[i] for i in order], [rad[i] for i in order], rng.choice([0.0, -0.25, 0.25]), 3, gs,
+                              geometry=gname, origin=okind, placement="axis"))
+                # off the axis: Cartesian y separated by almost the z period (py-pde wraps y with the z period when periodic)
+                pos = [[0, -(lz / 2 - 0.25), zmid], [0, lz / 2 - 0.25, zmid], [0.125, 0, z0], [0, 0, z0 + lz]]
+                out.append(mk("cyl", pos, [0.5, 0.375, 0.25, 0.25], 0.0, 3, gs, geometry=gname, origin=okind, placement="off_axis"))
+    return out
+
+
+def gen_coincident(ctx, rng):
+    out = []
+    for dim in (1, 2, 3):
+        for g in (2, 3, 4, 5):
+            for pat in ("equal", "distinct", "zero", "one_big"):
+                for md in (-1.0, 0.0, 0.5):
+                    c = [rng.randrange(0, 193) / 64.0 for _ in range(dim)]
+                    pos = [list(c) for _ in range(g)]
+                    rad = {"equal": [0.5] * g, "distinct": [0.25 * (i + 1) for i in range(g)], "zero": [0.0] * g,
+                           "one_big": [0.25] * (g - 1) + [1.0]}[pat]
+                    rng.shuffle(rad)
+                    for _ in range(rng.randrange(0, 3)):
+                        pos.insert(rng.randrange(len(pos) + 1), [rng.randrange(0, 193) / 64.0 for _ in range(dim)])
+                        rad.insert(rng.randrange(len(rad) + 1), rng.choice([0.0, 0.25, 0.5]))
+                    gs = rng.choice([None, None, None, legacy_grid_spec(dim, True), legacy_grid_spec(dim, "mixed")])
+                    out.append(mk("coin", pos, rad, md, dim, gs, rand_variant(rng, 0.6), group=g, radii_pattern=pat))
+    return out
+
+
+def gen_chains(ctx, rng):
+    """neighbours overlap; with the patterns below the first removal hits a LOW index while later minima involve higher
+    indices (their rows / radii shift), and ties walk along the chain"""
+    out = []
+    for n in (3, 4, 5, 6, 8) if ctx.quick else range(3, 10):
+        for pat in ("inc", "dec", "equal", "alt", "first_small", "valley"):
+            for md in (0.0, 0.5):
+                for order in ("asis", "reversed", "shuffled"):
+                    rad = {"inc": [0.55 + 0.03125 * i for i in range(n)], "dec": [0.55 + 0.03125 * (n - i) for i in range(n)],
+                           "equal": [0.625] * n, "alt": [0.5 if i % 2 else 0.75 for i in range(n)],
+                           "first_small": [0.25] + [0.75] * (n - 1),
+                           "valley": [0.55 + 0.0625 * abs(i - n // 2) for i in range(n)]}[pat]
+                    dim = rng.choice([1, 2])
+                    pos = [[float(i)] + [0.25 * (i % 2)] * (dim - 1) for i in range(n)]
+                    idx = list(range(n))
+                    if order == "reversed":
+                        idx.reverse()
+                    elif order == "shuffled":
+                        rng.shuffle(idx)
+                    out.append(mk("chain", [pos[i] for i in idx], [rad[i] for i in idx], md, dim, None, chain=pat, order=order))
+    return out
+
+
+def gen_long(ctx, rng):
+    out = []
+    for n, coq in [(32, True)] + ([] if ctx.quick else [(120, True), (600, False)]):
+        side = math.sqrt(n) * 1.5
+        pos = [[rng.randrange(0, int(side * 64)) / 64.0 for _ in range(2)] for _ in range(n)]
+        rad = [rng.choice([0.25, 0.5, 0.5, 0.75, 1.0]) for _ in range(n)]
+        out.append(mk("long", pos, rad, 0.0, 2, None, no_coq=not coq))
+    return out
+
+
+def gen_raising(ctx, rng):
+    out = []
+    for dim in (1, 2, 3):
+        for wrong in (1, 2, 3):
+            if wrong == dim:
+                continue
+            for prov in ("nocopy", "ctor_copy"):
+                n = rng.randrange(2, 6)
+                pos = [[rng.randrange(0, 193) / 64.0 for _ in range(dim)] for _ in range(n)]
+                rad = [rng.choice([0.5, 1.0, 1.5]) for _ in range(n)]
+                out.append(mk("raise", pos, rad, 0.0, dim, None, {**PLAIN, "prov": prov},
+                              wrong_grid=legacy_grid_spec(wrong, rng.choice([True, "mixed"]))))
+    return out
+
+
+# --------------------------------------------------------------------------------------------------------------------
+# Emulsion.from_random
+# --------------------------------------------------------------------------------------------------------------------
+def gen_from_random(ctx, rng, count):
+    out = []
+    for k in range(count):
+        dim = 1 + k % 3
+        region = rng.choice(["bounds", "bounds", "bounds_tuple", "bounds_array", "grid", "grid"])
+        if region == "grid":
+            gs = None
+            while gs is None:
+                gs = rand_grid(rng, dim)
+            reg = {"grid": gs}
+        else:
+            b = []
+            for _ in range(dim):
+                l = rng.choice(EXTENTS + [0.0])  # a degenerate axis [x, x] is a valid interval
+                o = origin_of(rng.choice(ORIGINS), l)
+                b.append([o, o + l])
+            reg = {"bounds": b}
+        r0 = rng.choice([0.0, 0.125, 0.25, 0.5])
+        r1 = r0 + rng.choice([0.0, 0.125, 0.5])
+        out.append({"stream": "from_random", "k": k, "dim": dim, "region": region, **reg,
+                    "radius_form": rng.choice(["tuple", "tuple", "list", "array", "float", "int", "np64"]), "r0": r0, "r1": r1,
+                    "num": rng.choice([0, 1, 2, 10, 10, 25]), "remove_overlapping": rng.choice(["default", True, False]),
+                    "droplet_class": rng.choice(["default", "SphericalDroplet", "DiffuseDroplet"]),
+                    "rng": rng.choice(["seeded"] * 5 + ["none"]), "rng_seed": rng.randrange(2 ** 31)})
+    return out
+
+
+def run_from_random(spec):
+    info: dict = {}
+    try:
+        return _oracle_from_random(spec, info), info
+    except Exception as e:
+        return f"exception {type(e).__name__}: {e}"[:300], info
+
+
+def _oracle_from_random(spec, info):
+    from droplets import DiffuseDroplet, Emulsion, SphericalDroplet
+    dim, r0, r1 = spec["dim"], spec["r0"], spec["r1"]
+    form = spec["radius_form"]
+    if form in ("float", "int", "np64"):
+        r1 = r0 = {"float": float, "int": lambda x: int(math.ceil(x)), "np64": np.float64}[form](r0 if form != "int" else max(r0, 1))
+        radius = r0
+    else:
+        radius = {"tuple": (r0, r1), "list": [r0, r1], "array": np.array([r0, r1])}[form]
+    grid = None
+    if "grid" in spec:
+        region = grid = make_grid(spec["grid"])
+        keep = None
+    elif spec["region"] == "bounds_tuple":
+        region = tuple(tuple(b) for b in spec["bounds"])
+        keep = _copy.deepcopy(region)
+    elif spec["region"] == "bounds_array":
+        region = np.array(spec["bounds"], dtype=float)
+        keep = region.copy()
+    else:
+        region = [tuple(b) for b in spec["bounds"]]
+        keep = _copy.deepcopy(region)
+    kw = {}
+    if spec["remove_overlapping"] != "default":
+        kw["remove_overlapping"] = spec["remove_overlapping"]
+    cls = SphericalDroplet
+    if spec["droplet_class"] != "default":
+        cls = kw["droplet_class"] = {"SphericalDroplet": SphericalDroplet, "DiffuseDroplet": DiffuseDroplet}[spec["droplet_class"]]
+    if spec["rng"] == "seeded":
+        kw["rng"] = np.random.default_rng(spec["rng_seed"])
+    em = Emulsion.from_random(spec["num"], region, radius, **kw)
+    if not isinstance(em, Emulsion):
+        return f"from_random returned {type(em).__name__}"
+    info["len"] = len(em)
+    removing = spec["remove_overlapping"] in ("default", True)
+    if len(em) > spec["num"] or (not removing and len(em) != spec["num"]):
+        return f"from_random({spec['num']}) returned {len(em)} droplets"
+    if keep is not None and not (np.array_equal(np.asarray(region, float), np.asarray(keep, float)) and type(region) is type(keep)):
+        return "from_random changed the caller's bounds"
+    pos, rad = [], []
+    for d in em:
+        if type(d) is not cls:
+            return f"droplet of class {type(d).__name__} instead of {cls.__name__}"
+        p = np.asarray(d.position)
+        r = d.radius
+        if p.shape != (dim,) or p.dtype.kind != "f" or not np.isfinite(p).all() or isinstance(r, complex) or not math.isfinite(r):
+            return f"droplet with position {p!r} radius {r!r}"
+        if not (r0 <= r <= r1):
+            return f"radius {r} outside [{r0}, {r1}]"
+        if grid is None:
+            inside = all(lo <= x <= hi for x, (lo, hi) in zip(p, spec["bounds"]))
+        else:
+            gs = spec["grid"]
+            if gs["kind"] == "cart":
+                inside = all(lo <= x <= hi for x, (lo, hi) in zip(p, gs["bounds"]))
+            elif gs["kind"] == "cyl":
+                inside = math.hypot(p[0], p[1]) <= gs["radius"] * (1 + 1e-15) and gs["bounds_z"][0] <= p[2] <= gs["bounds_z"][1]
+            else:
+                rr = gs["radius"] if isinstance(gs["radius"], (list, tuple)) else [0.0, gs["radius"]]
+                nrm = float(np.linalg.norm(p))
+                inside = rr[0] * (1 - 1e-15) <= nrm <= rr[1] * (1 + 1e-15)
+            inside = inside and bool(np.all(grid.contains_point(p, coords="cartesian")))
+        if not inside:
+            return f"position {p.tolist()} outside the requested region"
+        pos.append([float(x) for x in p])
+        rad.append(float(r))
+    info["droplets"] = {"positions": pos, "radii": rad}
+    if removing and grid is not None and any(grid.periodic) and "from_random_ignores_grid_metric" in SUSPECTED:
+        ds = list(em)
+        info["periodic_overlaps_left"] = sum(bool(a.overlaps(b, grid=grid)) for a, b in itertools.combinations(ds, 2))
+    if removing:
+        f, _ = run_spec(mk("from_random_result", pos, rad, 0.0, dim, None))
+        if f:
+            return "from_random(remove_overlapping=True) result: " + f
+    return None
+
+
+# --------------------------------------------------------------------------------------------------------------------
+# check
+# --------------------------------------------------------------------------------------------------------------------
+def _case_ro(R, md, M, out):
+    rows = vlib.listlit([vlib.listlit(r, vlib.qlit) for r in M.tolist()])
+    return ("{| rc_md := %s; rc_rad := %s; rc_D := %s; rc_out := %s |}"
+            % (vlib.qlit(md), vlib.listlit(R, vlib.qlit), rows, vlib.listlit(out, lambda i: f"{i}%nat")))
+
+
+def _case_dist(spec, info, rng, most=4):
+    """the metric is a statement about pairs: of a larger emulsion a random sub-emulsion of `most` droplets is compared"""
+    s = math.ldexp(1.0, info["var"]["k"])
+    n = len(info["P"])
+    sel = list(range(n)) if n <= most else sorted(rng.sample(range(n), most))
+    sub = info["M0"][np.ix_(sel, sel)]
+    return "{| dc_grid := %s; dc_unit := %s; dc_pos := %s; dc_M := %s |}" % (
+        grid_lit(spec["grid"], s), vlib.qlit(s * s), vlib.listlit([vlib.listlit(info["P"][i].tolist(), vlib.qlit) for i in sel]),
+        vlib.listlit([vlib.listlit(r, vlib.qlit) for r in sub.tolist()]))
+
+
+def _count_spec(ctx, spec, info):
+    n = len(spec["positions"])
+    gs = spec["grid"]
+    v = info.get("var", spec["var"])
+    ctx.count("stream", spec["stream"])
+    ctx.count("droplets", n if n <= 12 else ("13-99" if n < 100 else ">=100"))
+    ctx.count("dim", spec["dim"])
+    ctx.count("grid", grid_tag(gs))
+    if gs is not None:
+        ctx.count("wrap_matters:" + grid_tag(gs), bool(info.get("wrap")))
+        if gs["kind"] == "cart":
+            ctx.count("periodic_axes", periodic_place(gs["periodic"]))
+            ctx.count("origin", "+".join(sorted({"zero" if lo == 0 else ("negative" if hi <= 0 else ("centred" if lo == -hi else ("positive" if lo > 0 else "other")))
+                                                 for lo, hi in gs["bounds"]})))
+            ctx.count("extents", extent_order([hi - lo for lo, hi in gs["bounds"]]))
+            ctx.count("cells_min", min(gs["shape"]))
+            ctx.count("cells_equal", len(set(gs["shape"])) == 1)
+        elif gs["kind"] == "cyl":
+            nr, nz = gs["shape"]
+            lz = gs["bounds_z"][1] - gs["bounds_z"][0]
+            ctx.count("cyl_cells", "dz%sdr nr=%d nz=%d" % ("<" if lz / nz < gs["radius"] / nr else (">" if lz / nz > gs["radius"] / nr else "="), nr, nz))
+            ctx.count("cyl_z_origin", "zero" if gs["bounds_z"][0] == 0 else ("negative" if gs["bounds_z"][1] <= 0 else ("positive" if gs["bounds_z"][0] > 0 else "straddling")))
+            ctx.count("cyl_on_axis", all(p[0] == 0 and p[1] == 0 for p in spec["positions"]))
+    for m in spec.get("pos_modes", []):
+        ctx.count("position_mode", m)
+    groups: dict = {}
+    for p in spec["positions"]:
+        groups[tuple(p)] = groups.get(tuple(p), 0) + 1
+    ctx.count("largest_coincident_group", max(groups.values()) if groups else 0)
+    rad = spec["radii"]
+    ctx.count("radius_zero_present", 0.0 in rad)
+    ctx.count("radius_ties", "none" if len(set(rad)) == len(rad) else ("all_equal" if len(set(rad)) == 1 else "some"))
+    md = spec["min_distance"]
+    ctx.count("min_distance", "+inf" if md == math.inf else ("-inf" if md == -math.inf else ("0" if md == 0 else ("neg" if md < 0 else "pos"))))
+    ctx.count("min_distance_kind", spec.get("md_kind", "fixed"))
+    if "M1" in info and n >= 2:
+        off = info["M1"][~np.eye(n, dtype=bool)]
+        ctx.count("min_distance_equals_a_surface_distance", bool((off == info["md"]).any()))
+        ctx.count("touching_pairs_judged_exactly", min(info.get("touching_pairs", 0), 3))
+    for key in ("prov", "cls", "ctor", "md_type", "call"):
+        ctx.count(key, v[key])
+    ctx.count("scale_log2", v["k"])
+    for key in ("straddle", "chain", "order", "geometry", "placement", "group"):
+        if key in spec:
+            ctx.count(spec["stream"] + "_" + key, spec[key])
+    if "out" in info:
+        r = n - len(info["out"])
+        ctx.count("removed", r if r <= 12 else ">12")
+        # a removal chain in which an index below a later removed pair disappears first
+        if r >= 2:
+            ctx.count("removals>=2_lowest_removed_index", min(set(range(n)) - set(info["out"])))
 
 
 def check(ctx: vlib.Ctx) -> int:
@@ -164,61 +948,84 @@ def check(ctx: vlib.Ctx) -> int:
     nex = len(specs)
     # the exhaustive set is large: thin it deterministically in the quick tier
     if ctx.quick and nex > 6000:
-        specs = [s for i, s in enumerate(specs) if i % (nex // 6000 + 1) == 0 or len(s[0]) <= 2]
-    specs += gen_random(ctx, rng, ctx.scale(600, 6000))
-    ro_cases, dist_cases, meta = [], [], []
+        specs = [s for i, s in enumerate(specs) if i % (nex // 6000 + 1) == 0 or len(s["positions"]) <= 2]
+    specs += gen_masks(ctx, rng) + gen_cyl(ctx, rng) + gen_coincident(ctx, rng) + gen_chains(ctx, rng) + gen_long(ctx, rng)
+    specs += gen_random(ctx, rng, ctx.scale(900, 6000))
+    ro_cases, ro_meta, dist_cases = [], [], []
     fails = []
-    for pos, rad, md, dim, per in specs:
-        if per is None:
-            grid = None
-        elif per == "mixed":
-            grid = _grid(dim, [i % 2 == 0 for i in range(dim)])
-        else:
-            grid = _grid(dim, True)
-        M, out, em, drops = _run_ro(pos, rad, md, grid)
-        n = len(pos)
-        nontriv = n >= 2 and bool((M + np.diag([np.inf] * n) < md).any())
-        ctx.case([pos, rad, md, dim, str(per)], nontrivial=nontriv)
-        ctx.count("droplets", n)
-        ctx.count("dim", dim)
-        ctx.count("grid", "none" if grid is None else ("periodic" if per is True else "mixed"))
-        ctx.count("removed", n - len(out))
-        ro_cases.append(_case_ro(rad, md, M, out))
-        meta.append((pos, rad, md, dim, per))
-        if n >= 2 and len(dist_cases) < ctx.scale(400, 3000) and (len(ro_cases) % 7 == 0):
-            from droplets import Emulsion
-            M0 = Emulsion(drops, copy=False).get_pairwise_distances(subtract_radius=False, grid=grid)
-            dist_cases.append("{| dc_grid := %s; dc_pos := %s; dc_M := %s |}" % (
-                _grid_lit(grid), vlib.listlit([vlib.listlit(p, vlib.qlit) for p in pos]),
-                vlib.listlit([vlib.listlit(r, vlib.qlit) for r in M0.tolist()])))
-        f = oracle_one(pos, rad, md, grid)
+    suspected = 0
+    dist_cap = ctx.scale(2500, 12000)
+    for idx, spec in enumerate(specs):
+        f, info = run_spec(spec)
+        n = len(spec["positions"])
+        md = spec["min_distance"]
+        nontriv = "M1" in info and n >= 2 and bool((info["M1"] + np.diag([np.inf] * n) < info["md"]).any())
+        ctx.case({k: v for k, v in spec.items() if k not in ("pos_modes",)}, nontrivial=nontriv)
+        _count_spec(ctx, spec, info)
+        if info.get("suspected"):
+            suspected += 1
+            ctx.count("suspected_not_judged", info["suspected"])
         if f:
-            fails.append({"what": f, "input": {"positions": pos, "radii": rad, "min_distance": md, "dim": dim, "grid": str(per)}})
-    ctx.sample({"positions": meta[-1][0], "radii": meta[-1][1], "min_distance": meta[-1][2], "grid": str(meta[-1][4])})
-    ctx.sample({"coq_case": ro_cases[len(ro_cases) // 2][:400]})
+            fails.append({"what": f, "input": {"spec": spec}})
+            continue
+        if math.isinf(md) or spec.get("no_coq"):
+            ctx.count("coq_correspondence", "oracle only (min_distance infinite)" if math.isinf(md) else "oracle only (size)")
+            continue
+        ctx.count("coq_correspondence", "remove_overlapping")
+        ro_cases.append(_case_ro(info["R"], info["md"], info["M1"], info["out"]))
+        ro_meta.append(spec)
+        # distance-matrix comparison: every structured grid case and every random case with a grid, a thinned share of the rest
+        if spec["stream"] in ("masks", "cyl") or (spec["grid"] is not None and spec["stream"] != "exh"):
+            want = True
+        else:
+            want = idx % (29 if spec["stream"] == "exh" else 3) == 0
+        if want and n >= 2 and len(dist_cases) < dist_cap:
+            dist_cases.append(_case_dist(spec, info, rng))
+            ctx.count("coq_distance_matrix", grid_tag(spec["grid"]))
+    for spec in gen_raising(ctx, rng):
+        f, info = run_raising(spec)
+        ctx.case(spec)
+        ctx.count("stream", "raise")
+        ctx.count("raise_outcome", info.get("raised", "-"))
+        if f:
+            fails.append({"what": f, "input": {"raising_spec": spec}})
+    ctx.sample({k: specs[-1][k] for k in ("positions", "radii", "min_distance", "grid", "var")})
+    if ro_cases:
+        ctx.sample({"coq_case": ro_cases[len(ro_cases) // 2][:400]})
     header = ("From Coq Require Import QArith List.\nImport ListNotations.\n"
               "From PD Require Import Model.Grid Model.Overlap Model.OverlapCases.\nLocal Open Scope Q_scope.\n")
     if ok:
         bad = vlib.run_cases(ctx, "ro", header, ro_cases, "ro_agree", shard=400)
         for b in bad[:3]:
-            ctx.broken.append(f"correspondence remove_overlapping: model and implementation differ on {meta[b]}")
-        bad2 = vlib.run_cases(ctx, "dist", header, dist_cases, "dist_agree", shard=300)
+            ctx.broken.append(f"correspondence remove_overlapping: model and implementation differ on {json.dumps(ro_meta[b])[:600]}")
+        bad2 = vlib.run_cases(ctx, "dist", header, dist_cases, "dist_agree", shard=150)
         if bad2:
             ctx.broken.append(f"correspondence distance matrix vs Model/Grid.v: {len(bad2)} disagreeing case(s), first index {bad2[0]}")
     # random emulsions stay inside the requested region and radius range (RNG oracle)
-    from droplets import Emulsion
-    for k in range(ctx.scale(20, 200)):
-        dim = 1 + k % 3
-        bounds = [(-1.0 - k % 5, 2.0 + k % 7)] * dim
-        r0, r1 = 0.1 + (k % 4) * 0.1, 0.6 + (k % 3) * 0.2
-        em = Emulsion.from_random(10, bounds, (r0, r1), rng=np.random.default_rng(ctx.seed + k),
-                                  remove_overlapping=bool(k % 2))
-        for d in em:
-            if not (r0 <= d.radius <= r1 and all(b[0] <= x <= b[1] for x, b in zip(d.position, bounds))):
-                fails.append({"what": "from_random outside region / radius range", "input": {"k": k, "bounds": bounds, "radius": (r0, r1)}})
-        if k % 2 and oracle_one([list(d.position) for d in em], [d.radius for d in em], 0.0, None):
-            fails.append({"what": "from_random(remove_overlapping=True) leaves overlapping droplets", "input": {"k": k}})
-        ctx.case(["from_random", k])
+    for spec in gen_from_random(ctx, rng, ctx.scale(90, 500)):
+        f, info = run_from_random(spec)
+        ctx.case(spec)
+        ctx.count("stream", "from_random")
+        for key in ("region", "radius_form", "num", "remove_overlapping", "droplet_class", "rng", "dim"):
+            ctx.count("from_random_" + key, spec[key])
+        if "grid" in spec:
+            ctx.count("from_random_grid", grid_tag(spec["grid"]))
+        ctx.count("from_random_radius_range", "r0=0" if spec["r0"] == 0 else ("r0=r1" if spec["r0"] == spec["r1"] else "r0<r1"))
+        if "periodic_overlaps_left" in info:
+            ctx.count("suspected_not_judged", "from_random_ignores_grid_metric: overlap through the periodic boundary left"
+                      if info["periodic_overlaps_left"] else "from_random on a periodic grid: no overlap left")
+        if "len" in info:
+            ctx.count("from_random_returned", "num" if info["len"] == spec["num"] else "fewer")
+        if f:
+            fails.append({"what": f, "input": {"from_random_spec": spec, "droplets": info.get("droplets")}})
+    ctx.notes.append("min_distance = +-inf and emulsions of >= 600 droplets are fed to the property oracle only (the Q model has no "
+                     "infinite value; the matrix literal would be too large); all other cases also go through the in-Coq comparison")
+    ctx.notes.append("cylindrical / polar / spherical grids: the in-Coq distance comparison uses Model/OverlapCases.v cyl_metric / "
+                     "sym_metric, i.e. py-pde 0.58.0 grid.distance(coords='cartesian') as it is (cylinder: Cartesian y wrapped with the z "
+                     "period, z never wrapped = finding F19); the property oracle only uses grid.distance itself as 'the same metric'")
+    ctx.notes.append(f"SUSPECTED (reported, not judged): {SUSPECTED or 'none'}; "
+                     f"mixed-class emulsions whose nearest-neighbour part was not judged: {suspected} "
+                     "(everything else is judged on them); see histogram key suspected_not_judged")
     for f in fails[:3]:
         ctx.violations.append({**f, "found": True, "broken": ctx.broken[:3]})
     return vlib.finish(ctx, "", TRUSTED, ASSUME, RULE, exhaustive=not ctx.quick)
@@ -228,11 +1035,18 @@ def replay(path: str) -> int:
     obj = json.load(open(path))
     inp = obj.get("input", {})
     print(json.dumps(obj, indent=1)[:2000])
-    if "positions" in inp:
-        per = inp.get("grid")
-        dim = inp["dim"]
-        grid = None if per in (None, "None") else (_grid(dim, True) if per == "True" else _grid(dim, [i % 2 == 0 for i in range(dim)]))
-        f = oracle_one(inp["positions"], inp["radii"], inp["min_distance"], grid)
-        print("property oracle on the current tree:", f or "holds")
-        return 1 if f else 0
-    return 0
+    if "spec" in inp:
+        f, _ = run_spec(inp["spec"])
+    elif "raising_spec" in inp:
+        f, _ = run_raising(inp["raising_spec"])
+    elif "from_random_spec" in inp:
+        f, _ = run_from_random(inp["from_random_spec"])
+        if not f and inp["from_random_spec"].get("rng") == "none":
+            print("(the failing run used rng=None; the recorded droplets are in the replay file)")
+    elif "positions" in inp:  # replay files written before the input specification was generalised
+        f, _ = run_spec(mk("replay", inp["positions"], inp["radii"], inp["min_distance"], inp["dim"],
+                           legacy_grid_spec(inp["dim"], inp.get("grid"))))
+    else:
+        return 0
+    print("property oracle on the current tree:", f or "holds")
+    return 1 if f else 0
